@@ -114,6 +114,10 @@ pub enum Release {
     ReadBytewise,
     Respond,
     Drop,
+    /// the first request is being answered by another thread with a response far larger than
+    /// what the client's side of the connection takes (the client does not read): that thread
+    /// is stuck in its write; the following requests, sent one by one, must still arrive
+    StalledWriter,
 }
 
 #[derive(Clone, Debug, PartialEq)]
@@ -138,6 +142,7 @@ impl Sc {
                 Some("ReadBytewise") => Release::ReadBytewise,
                 Some("Respond") => Release::Respond,
                 Some("Drop") => Release::Drop,
+                Some("StalledWriter") => Release::StalledWriter,
                 _ => Release::CollectAll,
             },
             history: v["history"].as_u64().unwrap_or(0) as usize,
@@ -154,7 +159,72 @@ pub struct O {
     pub done: bool,
 }
 
+fn body_stalled(sc: Sc, obs: Arc<Mutex<O>>) {
+    ctl::window(false);
+    let srv = start_server();
+    ctl::settle();
+    let c = connect(&srv.addr, 0, &ConnSpec { capacity: Some(4096), ..ConnSpec::default() }).expect("connect");
+    let n = sc.kinds.len();
+    let _ = c.send(&Kind::None.request(0));
+    let first = srv.server.recv().expect("recv");
+    obs.lock().unwrap().obtained.push((first.url().to_string(), 0));
+    ctl::window(true);
+    let writer = tiny_http::verif_rt::thread::spawn_named(Some("big-answer".into()), move || {
+        let _ = first.respond(Response::from_string("B".repeat(200_000)));
+    });
+    ctl::settle();
+    let mut held: Vec<Request> = Vec::new();
+    for i in 1..n {
+        let _ = c.send(&sc.kinds[i].request(i));
+        // blocks for ever if the request is not made available: reported as a deadlock
+        match srv.server.recv() {
+            Ok(rq) => {
+                obs.lock().unwrap().obtained.push((rq.url().to_string(), held.len() + 1));
+                held.push(rq);
+            }
+            Err(_) => break,
+        }
+        ctl::settle();
+    }
+    {
+        let mut o = obs.lock().unwrap();
+        o.all_obtained = o.obtained.len() == n;
+    }
+    ctl::window(false);
+    // now the client reads: the big answer gets through, then the others
+    let answerer = tiny_http::verif_rt::thread::spawn_named(Some("answers".into()), move || {
+        for rq in held {
+            let _ = rq.respond(Response::from_string("ok"));
+        }
+    });
+    let mut received = Vec::new();
+    for _ in 0..200 {
+        ctl::settle();
+        let d = c.drain();
+        let got = d.segments.concat();
+        if got.is_empty() {
+            break;
+        }
+        received.extend(got);
+    }
+    let _ = writer.join();
+    let _ = answerer.join();
+    ctl::settle();
+    received.extend(c.drain().segments.concat());
+    obs.lock().unwrap().received = received;
+    c.close_write();
+    ctl::settle();
+    drop(c);
+    drop(srv);
+    ctl::sleep(Duration::from_millis(11_000));
+    ctl::settle();
+    obs.lock().unwrap().done = true;
+}
+
 pub fn body(sc: Sc, obs: Arc<Mutex<O>>) {
+    if sc.release == Release::StalledWriter {
+        return body_stalled(sc, obs);
+    }
     ctl::window(false);
     let srv = start_server();
     ctl::settle();
@@ -236,6 +306,7 @@ pub fn body(sc: Sc, obs: Arc<Mutex<O>>) {
                 }
                 drop(rq);
             }
+            Release::StalledWriter => unreachable!(),
         }
     }
     {
@@ -342,6 +413,10 @@ fn items(tier: Tier) -> &'static Vec<(Sc, u32)> {
                 }
             }
         }
+        // a writer stuck in a large answer that the client does not read
+        for n in 2..=4usize {
+            v.push((Sc { kinds: vec![Kind::None; n], release: Release::StalledWriter, history: 0 }, if n <= 3 { 1 } else { 0 }));
+        }
         // requests whose head is out of the ordinary (Connection: upgrade, explicit keep-alive,
         // HTTP/1.0 keep-alive, Expect, TE, HEAD, OPTIONS, forty headers) anywhere in a pipeline
         // that the application collects before answering
@@ -414,7 +489,7 @@ impl Check for C11 {
         format!(
             "pipelines of n = 2..{} requests over body kinds {{none, Content-Length 1 / 1024 / 1025, chunked 10}} and n = {}..8 over {{none, Content-Length 1024}}, sent in one piece; application program: pipelines whose bodies are all absent or <= 1024 bytes: collect all n requests with recv() before answering any (a request that does not become available leaves the application blocked: deadlock report = violation); otherwise a request with a larger or chunked body is read to its end (read_to_end; one read of exactly the body length then a read returning 0; blocks dividing the length; byte by byte) / answered / dropped and then the successor is waited for; plus pipelines of up to 300 (thorough 2000) body-less / 1-byte-body requests collected before any answer, and pipelines of 3 collected after histories of 1..140, 255..257 (thorough 1..300, 511, 512, 1023..1025) answered exchanges on the same connection (default schedule); {} scenarios, all schedules with at most 1 deviation (strict) for n <= {}, default schedule beyond{}; non-trivial = all",
             if full(tier) { 4 } else { 3 }, if full(tier) { 5 } else { 4 }, items(tier).len(), if full(tier) { 3 } else { 2 },
-            if deep(tier) { " || pipelines of 2..3 over {none, Content-Length 1024, and nine requests whose head is out of the ordinary: Connection: upgrade + Upgrade, Connection: keep-alive, Upgrade, explicit keep-alive, HTTP/1.0 keep-alive, a 1-byte body with Connection: Keep-Alive, TE, HEAD, OPTIONS, forty headers} with at least one of the nine (the two that announce an upgrade only in the last position: the library reads no further request after them), collected before any is answered || thorough adds: every pipeline of 5 over the five kinds, pipelines of 2..3 containing Content-Length 8193 or a 3000-byte body in chunks 1024/1/1975, and bounds 3 (n <= 2) / 2 (n = 3) / 1 (n <= 5)" } else { " || pipelines of 2..3 over {none, Content-Length 1024, and nine requests whose head is out of the ordinary: Connection: upgrade + Upgrade, Connection: keep-alive, Upgrade, explicit keep-alive, HTTP/1.0 keep-alive, a 1-byte body with Connection: Keep-Alive, TE, HEAD, OPTIONS, forty headers} with at least one of the nine (the two that announce an upgrade only in the last position: the library reads no further request after them), collected before any is answered" }
+            if deep(tier) { " || 2..4 bodiless requests sent one by one while another thread is stuck answering the first with 200 000 bytes that the client does not read (4096 bytes fit): each must still become available, bound 1 || pipelines of 2..3 over {none, Content-Length 1024, and nine requests whose head is out of the ordinary: Connection: upgrade + Upgrade, Connection: keep-alive, Upgrade, explicit keep-alive, HTTP/1.0 keep-alive, a 1-byte body with Connection: Keep-Alive, TE, HEAD, OPTIONS, forty headers} with at least one of the nine (the two that announce an upgrade only in the last position: the library reads no further request after them), collected before any is answered || thorough adds: every pipeline of 5 over the five kinds, pipelines of 2..3 containing Content-Length 8193 or a 3000-byte body in chunks 1024/1/1975, and bounds 3 (n <= 2) / 2 (n = 3) / 1 (n <= 5)" } else { " || 2..4 bodiless requests sent one by one while another thread is stuck answering the first with 200 000 bytes that the client does not read (4096 bytes fit): each must still become available, bound 1 || pipelines of 2..3 over {none, Content-Length 1024, and nine requests whose head is out of the ordinary: Connection: upgrade + Upgrade, Connection: keep-alive, Upgrade, explicit keep-alive, HTTP/1.0 keep-alive, a 1-byte body with Connection: Keep-Alive, TE, HEAD, OPTIONS, forty headers} with at least one of the nine (the two that announce an upgrade only in the last position: the library reads no further request after them), collected before any is answered" }
         )
     }
     fn assumptions(&self) -> Vec<String> {
